@@ -46,6 +46,7 @@ pub fn run(pid: &str, c: &Case) {
         "C14" => c14(c),
         "C17" => c17(c),
         "C12" => crate::c12::c12(c),
+        "C20" => crate::c20::c20(c),
         _ => { println!("reproduced=false"); println!("error=unknown property {}", pid); }
     }
 }
@@ -335,6 +336,24 @@ fn c05_search(c: &Case) {
                 Some(f) => { if (0..6).any(|j| (f[j] - prev[j]).abs() > 1e-5) { bad.push(format!("first answer {:?} differs from the previous joints {:?} that realise the singular pose", f, prev)); } }
             }
         } }
+        // the tool turned about the wrist axis by theta relative to the previous joints: a recovered answer exists, reproduces the pose, and J4/J6 take half of the
+        // turn each (counted in the same direction: their sign corrections), instead of jumping to the raw split of the solver
+        for &theta in &[0.2f64, -0.45, 1.1, -2.0] { for &(j4, j6) in &[(0.7f64, 1.05f64), (-2.0, 0.4), (2.9, -2.5)] {
+            let j5 = o.off[4] * o.sign[4];
+            let prev = [0.17, 0.35, 0.52, j4, j5, j6]; tried += 1;
+            let mut target = prev; target[5] += theta * o.sign[5];      // geometric J6 turned by theta
+            let pose = fk(&o, &target);
+            let sols = k.inverse_continuing(&pose_of(&pose), &prev);
+            match sols.first() {
+                None => bad.push(format!("no answer for the singular pose turned by {} from {:?}", theta, prev)),
+                Some(f) => {
+                    let (d4, d6) = ((f[3] - prev[3]) * o.sign[3], (f[5] - prev[5]) * o.sign[5]);
+                    let pi = std::f64::consts::PI; let close = |a: f64, b: f64| { let mut d = (a - b) % (2.0 * pi); if d > pi { d -= 2.0 * pi; } if d < -pi { d += 2.0 * pi; } d.abs() < 1e-4 };
+                    if !close_iso(&fk(&o, f), &pose, 1e-5) { bad.push(format!("first answer {:?} does not reproduce the singular pose turned by {}", f, theta)); }
+                    else if !(close(d4, theta / 2.0) && close(d6, theta / 2.0)) { bad.push(format!("singular pose turned by {} from previous {:?}: J4 and J6 of the first answer move by {:.4} and {:.4} (counted in the same direction) instead of {:.4} each", theta, prev, d4, d6, theta / 2.0)); }
+                }
+            }
+        } }
     }
     println!("native_cases={}", tried); bad.dedup(); for b in bad.iter().take(4) { println!("diff={}", b); } println!("reproduced={}", !bad.is_empty());
 }
@@ -468,7 +487,7 @@ impl Kinematics for Telescopic {
 /// link/tool lands on an unmoved link, on the base, or on an environment object
 pub fn c14(c: &Case) {
     let mut bad: Vec<String> = Vec::new(); let mut tried = 0;
-    for (tool, base, nenv) in [(true, true, 1usize), (false, true, 2), (true, false, 0), (false, false, 1)] {
+    for (tool, base, nenv) in [(true, true, 1usize), (false, true, 2), (true, false, 0), (false, false, 1), (true, true, 0), (false, true, 0)] {
         let kin = Telescopic { cons: Some(Constraints::new([-100.0; 6], [100.0; 6], 0.0)) };
         let mk = || RobotBody {
             joint_meshes: [cube(0.5), cube(0.5), cube(0.5), cube(0.5), cube(0.5), cube(0.5)],
@@ -580,6 +599,21 @@ pub fn c11(c: &Case) {
                 let (ia, ib) = (k.inverse_continuing(&pose, q), reference.inverse_continuing(&pose, q));
                 let want: Solutions = ib.into_iter().filter(|s| !k.collides(s)).collect();
                 if ia.len() != want.len() || ia.iter().zip(want.iter()).any(|(x, y)| !same_mod_2pi(x, y, 1e-7)) { bad.push(format!("{}: inverse_continuing returns {} answers, the hand-built stack gives {}", what, ia.len(), want.len())); }
+                // previous = CONSTRAINT_CENTERED with limits that are not centred on zero: the very same vectors (same turn, same order) as the hand-built stack filtered by collisions
+                {
+                    let cons2 = Constraints::new([0.35, -1.0, -2.0, 0.3, -2.0, 0.4], [5.9, 2.0, 1.5, 6.0, 2.0, 5.8], 0.0);
+                    let env2 = vec![CollisionBody { mesh: cube(0.05), pose: nalgebra::Isometry3::translation(9.0, 9.0, 9.0) }];
+                    let k2 = KinematicsWithShape::new(p, cons2, meshes(), mk_mesh(0.02), *base_t, mk_mesh(0.01), *tool_t, env2, true);
+                    let ref2 = Tool { robot: std::sync::Arc::new(Base { robot: std::sync::Arc::new(OPWKinematics::new_with_constraints(p, cons2)), base: *base_t }), tool: *tool_t };
+                    let q2: Joints = [1.2, 0.4, -0.5, 2.0, 0.7, 1.9]; let pose2 = ref2.forward(&q2);
+                    for prev in [rs_opw_kinematics::kinematic_traits::CONSTRAINT_CENTERED, q2] {
+                        for five in [false, true] {
+                            let (a2, b2) = if five { (k2.inverse_continuing_5dof(&pose2, &prev), ref2.inverse_continuing_5dof(&pose2, &prev)) } else { (k2.inverse_continuing(&pose2, &prev), ref2.inverse_continuing(&pose2, &prev)) };
+                            let w2: Solutions = b2.into_iter().filter(|s| !k2.collides(s)).collect();
+                            if a2.len() != w2.len() || a2.iter().zip(w2.iter()).any(|(x, y)| (0..6).any(|i| (x[i] - y[i]).abs() > 1e-9)) { bad.push(format!("{}: inverse_continuing{} with previous {} differs from the hand-built stack (asymmetric limits)", what, if five { "_5dof" } else { "" }, if prev[0].is_nan() { "CONSTRAINT_CENTERED" } else { "given" })); }
+                        }
+                    }
+                }
                 let pr = k.positioned_robot(q); for i in 0..6 { if iso_diff(&iso_of(&pr.joints[i].transform.cast::<f64>()), &iso_of(&lb[i])).0 > 1e-5 { bad.push(format!("{}: positioned link {} not at the link pose of the hand-built stack", what, i)); break; } }
             }
         } } }
